@@ -630,11 +630,10 @@ Definition step_eval_q (E : evals) (rho : env) (q : query) (v : tv) (ps : pst) (
             end
         | OpComma => ev_q E rho l v ps k ;; ev_q E rho r v ps k
         | OpAlt =>
-            c <- new_cell (plain VFalse) ;;
-            ev_q E rho l v ps (fun x ps' =>
-              if truthy (fst x) then set_cell c (plain VTrue) ;; k x ps' else ret tt) ;;
-            f <- get_cell c ;; free_cell c ;;
-            if truthy (fst f) then ret tt else ev_q E rho r v ps k
+            with_cell (scoped_ids ps) (plain VFalse)
+              (fun c => ev_q E rho l v ps (fun x ps' =>
+                 if truthy (fst x) then set_cell c (plain VTrue) ;; k x ps' else ret tt))
+              (fun f => if truthy (fst f) then ret tt else ev_q E rho r v ps k)
         | OpAnd =>
             ev_q E rho l v None (fun x _ =>
               if truthy (fst x)
@@ -956,17 +955,17 @@ Definition step_eval_t (E : evals) (rho : env) (t : term) (v : tv) (ps : pst) (k
               (fun res => k res ps0))
       | TForeach src pat start upd ext =>
           ev_q E rho start v ps (fun s0 ps0 =>
-            c <- new_cell s0 ;;
-            ev_q E rho src v ps0 (fun item ps1 =>
-              ev_bindpat E rho pat item ps1 (fun rho' ps2 =>
-                cur <- get_cell c ;;
-                ev_q E rho' upd cur ps2 (fun u ps3 =>
-                  set_cell c u ;;
-                  match ext with
-                  | None => k u ps3
-                  | Some e => ev_q E rho' e u ps3 k
-                  end))) ;;
-            free_cell c)
+            with_cell (scoped_ids ps0) s0
+              (fun c => ev_q E rho src v ps0 (fun item ps1 =>
+                 ev_bindpat E rho pat item ps1 (fun rho' ps2 =>
+                   cur <- get_cell c ;;
+                   ev_q E rho' upd cur ps2 (fun u ps3 =>
+                     set_cell c u ;;
+                     match ext with
+                     | None => k u ps3
+                     | Some e => ev_q E rho' e u ps3 k
+                     end))))
+              (fun _ => ret tt))
       | TLabel ident body =>
           l <- fresh ;; catch_break l (ev_q E (BLabel ident l :: rho) body v ps k)
       | TBreak name =>
